@@ -805,6 +805,21 @@ class Interp:
 
     def ev_ListComp(self, node, fr):
         gens = node.generators
+        if (len(gens) == 1 and not gens[0].ifs and isinstance(node.elt, ast.Name) and isinstance(gens[0].target, ast.Name)
+                and node.elt.id == gens[0].target.id):
+            # [x for x in xs] / [x async for x in gen()]: a new list with the same elements (xs may have symbolic length)
+            src = self.ev(gens[0].iter, fr)
+            if isinstance(src, VCoro):
+                src = self.await_(src)
+            src = self.resolve(src)
+            if isinstance(src, VRef) and self.hobj(src).kind == "symlist":
+                ends = self.hobj(src).meta.get("raises_at_end") or []
+                if ends:
+                    kk = self.path.choose(1 + len(ends), "generator_end")
+                    if kk:
+                        raise PyRaise(self.new_exc(self.class_by_qual(ends[kk - 1]), [VStr(c="raised by the generator")]))
+                from . import symlist
+                return symlist.concat_lists(self, [src], name="copied")
         if (len(gens) == 2 and not gens[0].ifs and not gens[1].ifs and isinstance(node.elt, ast.Name)
                 and isinstance(gens[1].target, ast.Name) and node.elt.id == gens[1].target.id):
             # [x for a in A for x in f(a)] : concatenation (the inner lists may be symbolic)
